@@ -119,6 +119,17 @@ pub fn prune(entries: &[Entry], t: u64) -> Vec<Entry> {
     out
 }
 
+/// Per key the newest version with ts <= t, tombstones included.
+pub fn prune_keep(entries: &[Entry], t: u64) -> Vec<Entry> {
+    let mut out: Vec<Entry> = Vec::new();
+    for e in entries {
+        if e.ts <= t && out.last().map(|l| l.key != e.key).unwrap_or(true) {
+            out.push(e.clone());
+        }
+    }
+    out
+}
+
 pub fn random_bound(rng: &mut Rng, probes: &[Vec<u8>]) -> Bound<Vec<u8>> {
     match rng.below(5) {
         0 | 1 => Bound::Unbounded,
@@ -208,7 +219,7 @@ fn one_case(
     prog_len: usize,
     only_comb: Option<&str>,
 ) -> (CaseInfo, Result<(), (String, String)>) {
-    let combs = ["merge", "concat", "bounds", "prune", "lazy", "stack"];
+    let combs = ["merge", "concat", "bounds", "prune", "lazy", "stack", "prune_keep", "store_stack"];
     let comb = match only_comb {
         Some(c) => combs.iter().find(|x| **x == c).copied().unwrap_or("merge"),
         None => *rng.pick(&combs),
@@ -325,6 +336,71 @@ fn one_case(
                     run_generic(&mut c, &expect, p, "prune")?;
                 }
             }
+            "prune_keep" => {
+                // the per-component mode: newest version <= t per key, tombstones retained
+                let mut tss: Vec<u64> = all.iter().map(|e| e.ts).collect();
+                tss.push(0);
+                tss.push(u64::MAX);
+                let t = match rng.below(4) {
+                    0 => u64::MAX,
+                    1 => rng.pick(&tss).wrapping_sub(1),
+                    _ => *rng.pick(&tss),
+                };
+                let expect = prune_keep(&all, t);
+                h.u64(t);
+                extra = json!({"timestamp": t, "pruned_len": expect.len()});
+                for p in &progs {
+                    let mut c = PruningCursor::with_tombstones(VecCursor::new(all.clone()), t)
+                        .map_err(|e| ("prune_keep:new-error".to_string(), format!("{e}")))?;
+                    run_generic(&mut c, &expect, p, "prune_keep")?;
+                }
+            }
+            "store_stack" => {
+                // the composition the store builds for a scan: every component is pruned on its own
+                // (tombstones retained), merged, pruned again and clamped.  Children stand for
+                // memtable / L0 files (arbitrary overlap) and one level (a concatenation).
+                let m = 1 + rng.usize(4);
+                let mut kids: Vec<Vec<Entry>> = vec![Vec::new(); m];
+                for e in all.iter() {
+                    kids[rng.usize(m)].push(e.clone());
+                }
+                children_n = m;
+                let sb = random_bound(rng, &probes);
+                let eb = random_bound(rng, &probes);
+                let mut tss: Vec<u64> = all.iter().map(|e| e.ts).collect();
+                tss.push(u64::MAX);
+                let t = *rng.pick(&tss);
+                let expect: Vec<Entry> = prune(&all, t)
+                    .into_iter()
+                    .filter(|e| in_bounds(&e.key, &sb, &eb))
+                    .collect();
+                h.u64(m as u64).u64(t).str(&show_bound(&sb)).str(&show_bound(&eb));
+                extra = json!({"children": kids.iter().map(|k| k.len()).collect::<Vec<_>>(),
+                    "timestamp": t, "start": show_bound(&sb), "end": show_bound(&eb)});
+                for p in &progs {
+                    let mut cursors: Vec<Box<dyn Cursor>> = Vec::new();
+                    for (i, k) in kids.iter().enumerate() {
+                        if i + 1 == kids.len() && k.len() >= 2 {
+                            // the last child plays a level: split into key-ordered files
+                            let cut = k.len() / 2;
+                            let files = vec![
+                                PruningCursor::with_tombstones(VecCursor::new(k[..cut].to_vec()), t).unwrap(),
+                                PruningCursor::with_tombstones(VecCursor::new(k[cut..].to_vec()), t).unwrap(),
+                            ];
+                            cursors.push(Box::new(ConcatenatingCursor::new(files).unwrap()));
+                        } else {
+                            cursors.push(Box::new(PruningCursor::with_tombstones(VecCursor::new(k.clone()), t).unwrap()));
+                        }
+                    }
+                    let c = MergingCursor::new(cursors)
+                        .map_err(|e| ("store_stack:new-error".to_string(), format!("{e}")))?;
+                    let c = PruningCursor::new(c, t)
+                        .map_err(|e| ("store_stack:new-error".to_string(), format!("{e}")))?;
+                    let mut c = BoundsCursor::new(c, &sb, &eb)
+                        .map_err(|e| ("store_stack:new-error".to_string(), format!("{e}")))?;
+                    run_generic(&mut c, &expect, p, "store_stack")?;
+                }
+            }
             "lazy" => {
                 let opts = TableOpts::random(rng);
                 let path = scratch.path.join(format!("c11-{case_no}.sst"));
@@ -399,7 +475,7 @@ fn one_case(
         Err(p) => Err((format!("{comb}:panic:{}", panic_site(&p)), format!("panic: {p}"))),
     };
     let nontrivial = match comb {
-        "merge" | "concat" | "stack" => children_n >= 2 && (has_tomb || shared_key) && reversal,
+        "merge" | "concat" | "stack" | "store_stack" => children_n >= 2 && (has_tomb || shared_key) && reversal,
         _ => all.len() >= 2 && (has_tomb || shared_key) && reversal,
     };
     let desc = json!({
